@@ -84,6 +84,68 @@ def digest(obj):
 
 
 _MOD = None
+_LINES = set()      # (file, line) executed in anchored files, this worker, not yet reported
+_ANCHOR_FILES = ()
+
+
+def anchors_of(prop):
+    """[(file, lo, hi, name)] parsed from the 'where' fields of the property's mechanism anchors."""
+    import re
+
+    out = []
+    try:
+        with open(os.path.join(VERIF, "properties.jsonl")) as f:
+            for line in f:
+                p = json.loads(line)
+                if p["id"] != prop:
+                    continue
+                for m in p["anchors"].get("mechanism", []):
+                    last_file = None
+                    for part in re.split(r"[,;]\s*", m.get("where", "")):
+                        mm = re.match(r"\s*([\w/\.]+\.py)?:?\s*(\d+)(?:-(\d+))?\s*$", part)
+                        if not mm:
+                            continue
+                        fn = mm.group(1) or last_file
+                        if fn is None:
+                            continue
+                        if not fn.startswith("pygradflow/"):
+                            # bare file names refer to the directory of the previous entry
+                            fn = os.path.join(os.path.dirname(last_file or "pygradflow/x"), fn)
+                        last_file = fn
+                        lo = int(mm.group(2)); hi = int(mm.group(3) or mm.group(2))
+                        out.append((fn, lo, hi, m.get("name", "")))
+    except Exception:
+        return []
+    return out
+
+
+def _witness_start(prop):
+    """PEP 669 line witness over the property's anchored files: every line reports once, then disables itself."""
+    global _ANCHOR_FILES
+    if prop is None or not hasattr(sys, "monitoring"):
+        return
+    files = {a[0] for a in anchors_of(prop)}
+    if not files:
+        return
+    _ANCHOR_FILES = tuple(files)
+    mon = sys.monitoring
+    tool = 3
+    try:
+        mon.use_tool_id(tool, "pgfmc-witness")
+    except ValueError:
+        return
+
+    def on_line(code, line):
+        fn = code.co_filename
+        i = fn.find("/pygradflow/")
+        if i >= 0:
+            rel = fn[i + 1:]
+            if rel in _ANCHOR_FILES:
+                _LINES.add((rel, line))
+        return mon.DISABLE
+
+    mon.register_callback(tool, mon.events.LINE, on_line)
+    mon.set_events(tool, mon.events.LINE)
 
 
 def _worker_init(modname):
@@ -101,6 +163,7 @@ def _worker_init(modname):
     lg.setLevel(logging.WARNING)
     _MOD = importlib.import_module(modname)
     signal.signal(signal.SIGALRM, _alarm)
+    _witness_start(getattr(_MOD, "ID", None))
 
 
 def _run_one(arg):
@@ -120,6 +183,9 @@ def _run_one(arg):
     finally:
         signal.alarm(0)
     res["_t"] = time.time() - t0
+    if _LINES:
+        res["_lines"] = list(_LINES)
+        _LINES.clear()
     return idx, res
 
 
@@ -230,6 +296,19 @@ def run_check(mod, tier, seed):
             else:
                 new_viol.append((case, v))
 
+    executed = set()
+    for res in results:
+        for fl in res.pop("_lines", []):
+            executed.add(tuple(fl))
+    anchor_report = None
+    anc = anchors_of(prop)
+    if anc and hasattr(sys, "monitoring"):
+        hit, miss = [], []
+        for (fn, lo, hi, name) in anc:
+            ok = any(f == fn and lo - 4 <= ln <= hi + 12 for (f, ln) in executed)
+            (hit if ok else miss).append(f"{fn}:{lo}-{hi}")
+        anchor_report = {"anchor_ranges": len(anc), "executed": len(hit), "not_executed": miss,
+                         "note": "line witness (PEP 669) over the files named by the property's mechanism anchors; line numbers refer to the pinned tree, a window of -4/+12 lines absorbs the fix commits"}
     extra = {}
     if hasattr(mod, "summarize"):
         extra = mod.summarize(cases, results, tier) or {}
@@ -264,6 +343,10 @@ def run_check(mod, tier, seed):
         "tier_table": getattr(mod, "TABLE", {}).get(tier) if hasattr(mod, "TABLE") else None,
     }
     coverage.update(jsonable(extra))
+    if anchor_report is not None:
+        coverage["anchor_witness"] = anchor_report
+        if anchor_report["anchor_ranges"] and anchor_report["executed"] * 2 < anchor_report["anchor_ranges"]:
+            vac = list(vac) + [f"fewer than half of the property's anchored mechanism ranges were executed: {anchor_report}"]
 
     # group new violations by signature; write up to 5 replays per signature
     by_sig = {}
